@@ -670,6 +670,10 @@ fn check_dis(ctx: &mut Ctx, parts: &[&Var], start_idx: usize) {
       Some(row) => row,
       None => {
         ctx.count(N_DIS_UNPARSED, 1);
+        // a row that is not in the listing format while other rows are: the instruction's address
+        // or bytes are not shown as what they are (if *no* row parses the layout itself has
+        // changed, which run() turns into a machinery error instead)
+        ctx.violation("C20 disassemble field=rendering kind=row-not-in-listing-format", || detail(&format!("row {:?} is not of the form 0xAAAA  BB BB BB    TEXT", r), &rows));
         return;
       },
     };
@@ -904,8 +908,10 @@ pub fn run(tier: &str) -> i32 {
     }
   }
 
-  if cd[N_DIS_UNPARSED] > 0 {
-    rep.machinery_error(format!("{} rendered rows did not match the expected Display layout \"0xAAAA  BB BB BB    TEXT\"; the row parser must be updated", cd[N_DIS_UNPARSED]));
+  if cd[N_DIS_UNPARSED] > 0 && cd[N_DIS_UNPARSED] >= cd[N_DIS_ROWS] {
+    // nothing parsed at all: the listing layout is different, the row parser must follow it
+    rep.violations.retain(|v| v.key != "C20 disassemble field=rendering kind=row-not-in-listing-format");
+    rep.machinery_error(format!("none of the {} rendered rows matched the expected Display layout \"0xAAAA  BB BB BB    TEXT\"; the row parser must be updated", cd[N_DIS_UNPARSED]));
   }
 
   if cd[N_DIS_EXCL] > 0 {
